@@ -82,7 +82,7 @@ Definition read_line (s : list Z) : res (option (list Z * list Z)) :=
   | _ =>
       res_bind (last_is line 10) (fun b =>
       let line := if b then removelast line else line in
-      res_bind (last_is line 13) (fun b =>
+      res_bind (match line with [] => Ok false | _ => last_is line 13 end) (fun b =>    (* len(line) > 0 && ... *)
       let line := if b then removelast line else line in
       Ok (Some (line, rest))))
   end.
@@ -97,12 +97,14 @@ Definition read_lines (s : list Z) : res (list (list Z)) := read_all (S (length 
 
 (* ------------------------------------------------------------------ types/big5.go TrimDBCS *)
 (* returns (result, the caller's array afterwards) *)
+Fixpoint dangling_lead (l : list Z) (lead : bool) : bool :=          (* isLead = !isLead && each >= 0x80 *)
+  match l with [] => lead | c :: r => dangling_lead r (negb lead && (128 <=? c)) end.
 Definition trim_dbcs (a : list Z) : res (list Z * list Z) :=
   let p := cprefix a in
-  match rev p with
-  | [] => Crash                                                      (* theBytes[len(theBytes)-1] on nil *)
-  | l :: _ =>
-      if 128 <=? l
+  match p with
+  | [] => Ok ([], a)
+  | _ =>
+      if dangling_lead p false
       then Ok (removelast p, firstn (length p - 1) a ++ 0 :: skipn (length p) a)
       else Ok (p, a)
   end.
@@ -194,7 +196,7 @@ Fixpoint strip_ansi_st (flag : Z) (st : sa_state) (s : list Z) : res (list Z) :=
       if p =? 91 then strip_ansi_st flag (SCsi []) r
       else if p =? 0 then Ok []
       else strip_ansi_st flag SText r                                (* ESC and the byte after it are dropped *)
-  | SCsi acc, [] => Crash                                            (* p = src[idxP] with idxP = len(src) *)
+  | SCsi acc, [] => Ok []                                            (* idxP == len(src): cut-off sequence, break *)
   | SCsi acc, c :: r =>
       if is_escape_param c then strip_ansi_st flag (SCsi (c :: acc)) r
       else
@@ -217,7 +219,7 @@ Definition dbcs_next (c prev : Z) : Z :=
 Fixpoint dbcs_status_loop (str : list Z) (pos : Z) (st : Z) : res Z :=
   if pos <? 0 then Ok st
   else match str with
-       | [] => Crash                                                 (* c := str[0] on an empty slice *)
+       | [] => Ok st                                                 (* pos >= 0 && len(str) > 0 *)
        | c :: r => let st' := dbcs_next c st in
                    match r with [] => Ok st' | _ => dbcs_status_loop r (pos - 1) st' end
        end.
@@ -242,55 +244,8 @@ Fixpoint strip_movecmd_st (esc : bool) (s : list Z) : list Z :=
 Definition strip_movecmd (s : list Z) : list Z := strip_movecmd_st false s.
 
 (* ------------------------------------------------------------------ cmbbs/string.go SubjectEx *)
-(* cmsys.StrcaseStartsWith = bytes.HasPrefix(bytes.ToLower(str), bytes.ToLower(prefix)). bytes.ToLower decodes
-   UTF-8: an ASCII byte is lowered, a byte that starts no valid sequence becomes U+FFFD, a valid multi-byte
-   sequence is mapped rune by rune. The prefixes compared against consist of ASCII bytes and of bytes that start
-   no valid sequence only ([prefix_simple], Props: C18_subject_prefixes_simple), so the comparison is over units. *)
-Definition cont (c : Z) : bool := (128 <=? c) && (c <=? 191).
-Definition utf8_len (s : list Z) : nat :=        (* length of the valid multi-byte sequence at the head; 0 = none *)
-  match s with
-  | c0 :: c1 :: t =>
-      if (194 <=? c0) && (c0 <=? 223) then (if cont c1 then 2%nat else 0%nat)
-      else match t with
-           | c2 :: t' =>
-               if c0 =? 224 then (if (160 <=? c1) && (c1 <=? 191) && cont c2 then 3%nat else 0%nat)
-               else if c0 =? 237 then (if (128 <=? c1) && (c1 <=? 159) && cont c2 then 3%nat else 0%nat)
-               else if (225 <=? c0) && (c0 <=? 239) then (if cont c1 && cont c2 then 3%nat else 0%nat)
-               else match t' with
-                    | c3 :: _ =>
-                        if c0 =? 240 then (if (144 <=? c1) && (c1 <=? 191) && cont c2 && cont c3 then 4%nat else 0%nat)
-                        else if (241 <=? c0) && (c0 <=? 243) then (if cont c1 && cont c2 && cont c3 then 4%nat else 0%nat)
-                        else if c0 =? 244 then (if (128 <=? c1) && (c1 <=? 143) && cont c2 && cont c3 then 4%nat else 0%nat)
-                        else 0%nat
-                    | [] => 0%nat
-                    end
-           | [] => 0%nat
-           end
-  | _ => 0%nat
-  end.
-Inductive lunit := UA (c : Z) | UR.               (* lowered ASCII byte | U+FFFD *)
-Definition prefix_units (p : list Z) : list lunit := map (fun c => if c <? 128 then UA (to_lower c) else UR) p.
-Fixpoint prefix_simple (p : list Z) : bool :=     (* no valid multi-byte sequence; no letter a non-ASCII rune lowers to *)
-  match p with
-  | [] => true
-  | c :: r => (if c <? 128 then negb (in_bytes (to_lower c) [105; 107]) else match utf8_len p with O => true | _ => false end)
-              && prefix_simple r
-  end.
-Fixpoint match_units (pu : list lunit) (s : list Z) : bool :=
-  match pu with
-  | [] => true
-  | u :: pu' =>
-      match s with
-      | [] => false
-      | c :: r =>
-          if c <? 128 then match u with UA x => (to_lower c =? x) && match_units pu' r | UR => false end
-          else match utf8_len s with
-               | O => match u with UR => match_units pu' r | UA _ => false end
-               | n => match u with UR => has_prefix s [239; 191; 189] && match_units pu' (skipn n s) | UA _ => false end
-               end
-      end
-  end.
-Definition strcase_starts_with (s p : list Z) : bool := match_units (prefix_units p) s.
+(* cmsys.StrcaseStartsWith: bytes.HasPrefix(CstrTolower(str), CstrTolower(prefix)) *)
+Definition strcase_starts_with (s p : list Z) : bool := has_prefix (cstr_tolower s) (cstr_tolower p).
 (* pTitle[len(prefix):] *)
 Definition drop_prefix (p t : list Z) : res (list Z) :=
   if lenZ t <? lenZ p then Crash else Ok (skipn (length p) t).
